@@ -97,6 +97,10 @@ def local_aliases(fn: ast.AST) -> dict[str, ast.AST]:
                     continue
                 if ln > last_load.get(k, 0) and not in_loop(defstmt.get(k)):
                     continue
+                # a store on an earlier line than the definition runs before it or not at all (no enclosing loop to come round again)
+                if ln < getattr(defstmt.get(k), "lineno", 0) and getattr(st, "end_lineno", ln) < getattr(defstmt.get(k), "lineno", 0) \
+                        and not in_loop(defstmt.get(k)):
+                    continue
                 return False
         return True
 
@@ -189,6 +193,58 @@ def local_aliases(fn: ast.AST) -> dict[str, ast.AST]:
                 okk = False
         if okk:
             out[k] = _load(v)
+    # a short-lived alias of a field the function itself rewrites elsewhere (`fut = self._fut ... await fut ... self._fut = None`, in a
+    # loop or not): t stands for the field at every use provided that every use follows the definition inside the same block and that,
+    # positioned between the definition and the last use, there is neither a store to an attribute of the chain, nor a call that
+    # could make one, nor a suspension point other than an `await` of t itself (control cannot reach a use without passing the
+    # definition again, so stores elsewhere in the function are irrelevant)
+    for k, c in counts.items():
+        v = rhs.get(k)
+        if k in out or c != 1 or v is None or k in params:
+            continue
+        v = strip_cast(v)
+        if not (isinstance(v, ast.Attribute) and not contains(v, (ast.Call, ast.Subscript))):
+            continue
+        base = v
+        while isinstance(base, ast.Attribute):
+            base = base.value
+        if not (isinstance(base, ast.Name) and counts.get(base.id, 0) == 0):
+            continue
+        d = defstmt[k]
+        if not isinstance(d, (ast.Assign, ast.AnnAssign)):
+            continue
+        holder = getattr(d, "_parent", None)
+        blk = next((getattr(holder, fld) for fld in ("body", "orelse", "finalbody") if isinstance(getattr(holder, fld, None), list) and d in getattr(holder, fld)), None)
+        if blk is None:
+            continue
+        after = blk[blk.index(d) + 1:]
+        inside = {id(x) for s_ in after for x in ast.walk(s_)}
+        uses = [x for x in own_walk(fn) if isinstance(x, ast.Name) and x.id == k and isinstance(x.ctx, ast.Load)]
+        if not uses or any(id(x) not in inside for x in uses):
+            continue
+        if sum(1 for x in ast.walk(fn) if isinstance(x, ast.Name) and x.id == k) != len(uses) + 1:
+            continue        # also used in a nested function
+        pos = lambda n_: (getattr(n_, "lineno", 0), getattr(n_, "col_offset", 0))
+        last = max(pos(u_) for u_ in uses)
+        use_ids = {id(u_) for u_ in uses}
+        chain_attrs = {x.attr for x in ast.walk(v) if isinstance(x, ast.Attribute)}
+        okk = True
+        for s_ in after:
+            for x in ast.walk(s_):
+                if pos(x) >= last or not hasattr(x, "lineno"):
+                    continue
+                if isinstance(x, ast.Attribute) and isinstance(x.ctx, (ast.Store, ast.Del)) and x.attr in chain_attrs:
+                    okk = False
+                elif isinstance(x, (ast.Yield, ast.YieldFrom, ast.AsyncFor, ast.AsyncWith)):
+                    okk = False
+                elif isinstance(x, ast.Await) and id(x.value) not in use_ids:
+                    okk = False
+                elif isinstance(x, ast.Call) and not (isinstance(x.func, ast.Name) and (x.func.id in ("len", "isinstance", "bool", "id", "type", "cast") or x.func.id[:1].isupper())):
+                    okk = False
+                elif isinstance(x, (ast.While, ast.For)) and any(id(y) in use_ids for y in ast.walk(x)):
+                    okk = False     # (a loop inside the region re-runs statements positioned after a use)
+        if okk:
+            out[k] = _load(v)
     return out
 
 
@@ -253,10 +309,13 @@ def atom(e: ast.AST, aliases=None) -> tuple[str, bool]:
             return (f"{min(L, R)} == {max(L, R)}", not pol)
         if isinstance(op, ast.Eq):
             return (f"{min(L, R)} == {max(L, R)}", pol)
-        if isinstance(op, ast.IsNot):
-            return (f"{L} is {R}", not pol)
-        if isinstance(op, ast.Is):
-            return (f"{L} is {R}", pol)
+        if isinstance(op, (ast.Is, ast.IsNot)):
+            # identity is symmetric: a constant goes to the right, two expressions are ordered textually
+            if isinstance(l, ast.Constant) and not isinstance(r, ast.Constant):
+                L, R = R, L
+            elif not isinstance(l, ast.Constant) and not isinstance(r, ast.Constant):
+                L, R = min(L, R), max(L, R)
+            return (f"{L} is {R}", pol if isinstance(op, ast.Is) else not pol)
         if isinstance(op, ast.NotIn):
             return (f"{L} in {R}", not pol)
         if isinstance(op, ast.In):
